@@ -318,6 +318,7 @@ pub struct Ctx {
     subs: Mutex<Vec<(String, SubStats)>>,
     violations: Mutex<Vec<(String, PathBuf)>>,
     known_printed: Mutex<HashSet<String>>,
+    extra_known: Mutex<BTreeMap<String, u64>>,
     rule: Mutex<String>,
     assumptions: Mutex<Vec<String>>,
     extra: Mutex<BTreeMap<String, Value>>,
@@ -416,6 +417,7 @@ impl Ctx {
             subs: Mutex::new(vec![]),
             violations: Mutex::new(vec![]),
             known_printed: Mutex::new(HashSet::new()),
+            extra_known: Mutex::new(BTreeMap::new()),
             rule: Mutex::new(String::new()),
             assumptions: Mutex::new(vec![]),
             extra: Mutex::new(BTreeMap::new()),
@@ -562,6 +564,23 @@ impl Ctx {
             ..Default::default()
         };
         self.subs.lock().unwrap().push((sub.to_string(), st));
+    }
+
+    /// For oracles that want to continue a case past a known finding: returns `true` (printing the
+    /// KNOWN-FINDING line once and counting the hit) iff `signature` is listed as `known` for this
+    /// property; `false` means the caller must report it as a violation.
+    pub fn known_hit(&self, signature: &str) -> bool {
+        match self.is_known(signature) {
+            Some(k) => {
+                let mut printed = self.known_printed.lock().unwrap();
+                if printed.insert(k.signature.clone()) {
+                    println!("KNOWN-FINDING: property={} signature={} {}", self.property, k.signature, k.what);
+                }
+                *self.extra_known.lock().unwrap().entry(k.signature.clone()).or_default() += 1;
+                true
+            }
+            None => false,
+        }
     }
 
     pub fn violated(&self) -> bool {
@@ -1065,6 +1084,9 @@ impl Ctx {
                     "wall_s": (st.wall_s * 100.0).round() / 100.0,
                 }),
             );
+        }
+        for (k, v) in self.extra_known.lock().unwrap().iter() {
+            *excluded_known.entry(k.clone()).or_default() += v;
         }
         let all_exh = !subs.is_empty() && subs.iter().all(|(_, s)| s.exhaustive == Some(true));
         let mut coverage = serde_json::Map::new();
